@@ -106,6 +106,41 @@ def run(ctx):
                 ctx.distinct.add((fmt, data.shape, str(data.dtype), tuple(names), data.tobytes()[:64]))
             if gi < 2:
                 ctx.sample({"grid": {"shape": list(data.shape), "dtype": str(data.dtype), "axis_names": names, "axes": [a.tolist() for a in axes]}})
+            # ---- file histories: overwrite an existing file with a different grid; several grids
+            #      under different paths of one HDF5 file
+            if gi % 4 == 0:
+                d2, a2, n2 = gen_grid(rng)
+                g2 = NssGrid(d2.copy(), [a.copy() for a in a2], list(n2))
+                for fmt, ext in (("hdf5", "h5"), ("fits", "fits")):
+                    f = os.path.join(work, f"ow{gi}.{ext}")
+                    ctx.count("overwrite")
+                    try:
+                        g.write(f, format=fmt)
+                        g2.write(f, format=fmt, overwrite=True)
+                        r = NssGrid.read(f, format=fmt)
+                        if not (same_array(r.data, d2) and list(r.axis_names) == list(n2) and len(r.axes) == len(a2) and all(same_array(x, y) for x, y in zip(r.axes, a2))):
+                            ctx.violation("roundtrip", f"{fmt}: after overwriting a {data.shape} grid {names!r} with a {d2.shape} grid {n2!r} the file reads back as shape {np.asarray(r.data).shape}, names {list(r.axis_names)!r}", {"format": fmt, "first": [list(data.shape), names], "second": [list(d2.shape), n2]})
+                    except Exception as e:
+                        ctx.exception("roundtrip", f"{fmt}: overwriting an existing grid file (overwrite=True) raised", e, {"format": fmt})
+                    finally:
+                        if os.path.exists(f):
+                            os.remove(f)
+                f = os.path.join(work, f"mp{gi}.h5")
+                ctx.count("multipath")
+                try:
+                    g.write(f, format="hdf5", path="/first")
+                    g2.write(f, format="hdf5", path="/second/nested")
+                    r1 = NssGrid.read(f, format="hdf5", path="/first")
+                    r2 = NssGrid.read(f, format="hdf5", path="/second/nested")
+                    ok1 = same_array(r1.data, data) and list(r1.axis_names) == list(names) and all(same_array(x, y) for x, y in zip(r1.axes, axes))
+                    ok2 = same_array(r2.data, d2) and list(r2.axis_names) == list(n2) and all(same_array(x, y) for x, y in zip(r2.axes, a2))
+                    if not (ok1 and ok2):
+                        ctx.violation("roundtrip", f"hdf5: two grids written under different paths of one file do not both read back ({'first' if not ok1 else 'second'} differs)", {"first": [list(data.shape), names], "second": [list(d2.shape), n2]})
+                except Exception as e:
+                    ctx.exception("roundtrip", "hdf5: writing / reading two grids under different paths of one file raised", e, {})
+                finally:
+                    if os.path.exists(f):
+                        os.remove(f)
             # ---- slicing on this grid
             for ax_i in range(data.ndim):
                 n = data.shape[ax_i]
@@ -239,7 +274,11 @@ def run(ctx):
         ctx.exhaustive_subspaces.append("every node of every shipped nu2tau_cdf / nu2tau_pexit table (versions 0-3)")
     finally:
         shutil.rmtree(work, ignore_errors=True)
-    for m in ("roundtrip", "slice-node", "slice-lerp", "row-interp", "shipped"):
+    if ctx.thorough():
+        from .. import repotests
+
+        repotests.run(ctx, "C18")
+    for m in ("roundtrip", "overwrite", "multipath", "slice-node", "slice-lerp", "row-interp", "shipped"):
         ctx.require(m)
     return ctx.finish(
         rule="random grids (1-4 dimensions, axis lengths 1-6, 9 float/int dtypes, axis names of 1-10 printable ASCII characters incl. internal spaces, quotes, backslashes and names differing only in case) written/read in both formats; slices at every node of every axis (by index and by name) and at 2 interior coordinates; non-decreasing rows with 35 % plateau steps, queries strictly inside the range incl. exact node values; a case is a distinct grid or (row, query)",
